@@ -17,14 +17,19 @@ from c04 import (TYPES, system, make, of_var, to_var, stacked, eq_ref, ineq_ref,
                  EighTap, basis_txt, cx_list, _floats, _frac, n_of)
 from quara.settings import Settings
 
-LEAN_EXTRA_SOURCES = ("C04.lean", "C04Psd.lean", "C04Ineq.lean", "Psd.lean")
+LEAN_EXTRA_SOURCES = ("C04.lean", "C04Psd.lean", "C04Ineq.lean", "Psd.lean", "C05Psd.lean")
 LEAN_EXTRA_TARGETS = ("QGen.C05", "QGen.C04")
 PARTIAL = [
-    {"theorem": "dyk_* (all)", "missing": "that the stopped iterate is within a stated distance of the NEAREST physical point (strong "
-     "convergence of Dykstra's sequence) is not proved; proved are: sweep invariant, potential decrease by the stopping value, "
-     "boundedness and summability, termination of the loop as coded by its criterion within n+1 sweeps when n*eps > |x0-z|^2, the "
-     "min(first stop, max_iteration) rule, returned point physical up to sqrt(eps), vanishing stopping value = fixed point, fixed "
-     "point = nearest point of the intersection (order independent), physical input returned after two sweeps, history consistency"},
+    {"theorem": "dyk_fixed_nearest_partial, dyk_order_independent_partial",
+     "missing": "exact statements only at fixed points (stopping value 0); for stopped iterates see dyk_returned_approx_vi_partial and the oracle"},
+    {"theorem": "dyk_returned_approx_vi_partial",
+     "missing": "bounds the DEFECT of the nearest-point inequality at the returned point by |p|*sqrt(eps), not the distance to the nearest "
+                "physical point (strong convergence of Dykstra's sequence is not proved; certified per run by the oracle)"},
+    {"theorem": "dyk_runMode_orders (clause C05.5 object level = variable level)",
+     "missing": "definitional in the model (one loop for both levels, conversions var <-> stacked vector not modelled): established by the "
+                "oracle and the correspondence only"},
+    {"theorem": "isProj_* instances", "missing": "proved for State eq, Gate eq (flat vector) and the PSD projection for a complete basis over R "
+     "(State, Gate via Choi basis); Povm/MProcess projections have their VI theorems in C04 on shaped objects but no IsProj instance"},
 ]
 EPSS = [1e-14, 1e-12, 1e-10, 1e-8, 1e-6]
 ORDERS = ("eq_ineq", "ineq_eq")
@@ -184,6 +189,7 @@ def correspondence(ctx):
     ctx.partial = PARTIAL
     drv = Driver("C05")
     pend = []
+    zero_iter = []
     g = ctx.npgen(21)
     plan = []
     reps = 2 if ctx.quick else 16
@@ -217,7 +223,20 @@ def correspondence(ctx):
         for order in ORDERS:
             corr_case(ctx, drv, pend, "Gate", "t", 1, start_point(g, "Gate", "t", 1, "near"), False, order, 1e-8, "var", 4, "near")
             corr_case(ctx, drv, pend, "State", "qq", 1, start_point(g, "State", "qq", 1, "far"), True, order, 1e-10, "obj", 50, "far")
+    # max_iteration = 0: the real routine fails on the unbound loop variable, the model replies `unbound-k`
+    for typ, level in (("State", "obj"), ("Gate", "var")):
+        x0 = start_point(g, typ, "q", 1, "near")
+        r0 = run_real(typ, "q", 1, x0, False, "eq_ineq", 1e-10, level, 0)
+        c0, _ = system("q")
+        i0 = drv.ask("run", typ, "eq_ineq", c0.dim, n_of(c0), 1, q(const_of(typ, c0)), q(Settings.get_atol()), basis_txt("q"), q(1e-10), 0, 0,
+                     qlist(np.asarray(x0).ravel()), "-", "-")
+        zero_iter.append((typ, level, r0, i0))
+        ctx.case(("run0", typ, level, tuple(np.asarray(x0).tolist())), nontrivial=False)
     out = drv.run()
+    for typ, level, r0, i0 in zero_iter:
+        ctx.corr_ops.add(f"run/{typ}/{level}")
+        if (r0["err"] in ("UnboundLocalError", "NameError")) != (out[i0] == "err unbound-k"):
+            ctx.disagree(f"run/{typ}/{level}", {"typ": typ, "system": "q", "m": 1, "max_iter": 0}, f"impl error: {r0['err']}", out[i0][:100])
     for op, typ, level, inp, r, i, kk in pend:
         name = f"{op}/{typ}/{level}"
         ctx.corr_ops.add(name)
